@@ -292,7 +292,7 @@ def best_alignment_contract(name, soft):
               "implies(row[a] >= cntAt(a), isnone(ua[a][1])))"),
     ]
     ensures = [
-        cl("fresh_obj(result) and not isnone(result.continuum) and same_obj(some(result.continuum), self)", name="attached"),
+        cl("fresh_obj(result)", name="fresh"),
         cl("forall(t, 0, len(L()), len(L()[t]._n_tuple) == nA() and forall(a, 0, nA(), L()[t]._n_tuple[a][0] == Kseq(self)[a] and "
            "(isnone(slot(t, a)) or Us(self)[Kseq(self)[a]][some(slot(t, a))])))", "C01 C11 C10", name="P1-well-formed-own-units"),
         cl("forall(t, 0, len(L()), exists(a, 0, nA(), not isnone(slot(t, a))))", "C01 C11", name="P2-some-real-unit"),
@@ -328,6 +328,7 @@ def best_alignment_contract(name, soft):
                     params={"self": CONT(), "dissimilarity": DISSIM()},
                     returns=ALIGN("SoftAlignment" if soft else "Alignment"),
                     modifies=[], macros=macros, lemmas=DOT_LEMMAS + PSUM_LEMMAS,
+                    binds={"result.continuum": "self"},
                     locals={"set_unitary_alignements": UAT(), "u_align_tuple": SlotT()},
                     ghost_vars={"CD": ("AReal", None), "CA": ("A2Int", None), "AM": ("A2Real", None), "XV": ("AReal", None),
                                 "KK": ("Int", None), "SEL": ("AInt", None), "NSEL": ("Int", None)},
@@ -436,12 +437,13 @@ def job_contract(job, meth, soft):
     from pyvc.contract import REGISTRY, Clause
     callee = REGISTRY[F + "Continuum." + meth]
     ren = lambda t: re.sub(r"\bself\b", "continuum", t)       # noqa: E731
-    keep = ("attached", "P1-well-formed-own-units", "P2-some-real-unit", "P3-every-unit-at-least-once", "P3-every-unit-at-most-once",
+    keep = ("fresh", "P1-well-formed-own-units", "P2-some-real-unit", "P3-every-unit-at-least-once", "P3-every-unit-at-most-once",
             "disorder-is-sum-over-xbar")
     macros = [Macro(m.name, m.params, ren(m.body.text)) for m in callee.macros.values()]
     ens = [cl(ren(c.text), " ".join(sorted(c.props)) if c.props else None, name=c.name) for c in callee.ensures if c.name in keep]
     return contract(F + job, params={"dissimilarity": DISSIM(), "continuum": CONT()}, returns=ALIGN("SoftAlignment" if soft else "Alignment"),
                     modifies=[], macros=macros, requires=[ren(c.text) for c in callee.requires],
+                    binds={"result.continuum": "continuum"},
                     raises={"AssertionError": {}, "SolverError": {}}, ensures=ens, serves={"C05", "C06", "C01", "C11"})
 
 
